@@ -1,7 +1,7 @@
 (** C09 -- canonical observations for the correspondence check (no proofs here). *)
 From Coq Require Import List ZArith NArith Bool.
 From MxlBase Require Import ListX.
-From Scan Require Import ScanGeneric ScanModel ScanY0.
+From Scan Require Import ScanGeneric ScanModel ScanY0 ScanWarm.
 Import ListNotations.
 Local Open Scope Z_scope.
 
@@ -40,7 +40,8 @@ Definition obs_eqb (a b : observed) : bool :=
 (** [k_ep]: which entry point ran (its [y0] policy is looked up in the regenerated table); [k_y0]: the
     [y0] argument of the call *)
 Record case := mkCase { k_m : mdl; k_w : wkind; k_md : mode; k_rows : list (label * row); k_obs : observed;
-                        k_ep : ep_name; k_y0 : option y0 }.
+                        k_ep : ep_name; k_y0 : option y0;
+                        k_warm : bool (* the model object was inspected / simulated before the scan: it carries a cache *) }.
 
 Definition run_case (f : scan_facts) (eps : list entry_point) (c : case) : observed :=
   let p := y0_policy_of eps (k_ep c) in
@@ -55,6 +56,28 @@ Definition run_case (f : scan_facts) (eps : list entry_point) (c : case) : obser
 
 Definition mismatches (f : scan_facts) (eps : list entry_point) (cs : list case) : list nat :=
   filter_idx (fun c => negb (obs_eqb (run_case f eps c) (k_obs c))) cs.
+
+(** third pass: the same case on the model OBJECT with its [_cache] (ScanWarm.v), cold or warm as the harness
+    handed it to the real scan; row-update and view policy regenerated from the source.  A case is a mismatch
+    when EITHER model disagrees with the implementation (for the tree's y0 policy; the object model has no
+    hand-over shape). *)
+Definition run_case_cc (p : row_update) (vp : view_policy) (f : scan_facts) (c : case) : observed :=
+  let mc0 := if k_warm c then warm (k_m c) else cold (k_m c) in
+  match k_w c with
+  | WSteady => canon true (scan_list_cc p vp f WSteady (k_md c) mc0 (k_y0 c) (k_rows c))
+  | WTimeCourse tps =>
+      match scan_dict_checked_cc p vp f (WTimeCourse tps) (k_md c) mc0 (k_y0 c) (k_rows c) with
+      | None => ObsRefuse
+      | Some t => canon false t
+      end
+  end.
+
+Definition mismatches3 (f : scan_facts) (eps : list entry_point) (p : row_update) (vp : view_policy) (cs : list case) : list nat :=
+  filter_idx (fun c => negb (obs_eqb (run_case f eps c) (k_obs c))
+                       || match y0_policy_of eps (k_ep c) with
+                          | Y0IntoModel => negb (obs_eqb (run_case_cc p vp f c) (k_obs c))
+                          | _ => false
+                          end) cs.
 
 (** the result cache: the real [parallelise(fn, inputs, cache=..., parallel=False)] with
     [fn = x -> x*x + 1] on integer keys / values against [run_cached] from an empty store *)
